@@ -32,6 +32,7 @@ func VerifyFunc(p *Prog, fi *FuncInfo, modeOverride string) *VC {
 	sig := fr.sig
 	vc.stack = []string{fi.Key}
 	vc.noSafety = ct != nil && ct.NoSafety
+	vc.splitJoins = ct != nil && ct.NoMerge
 	// parameters
 	bindP := func(pv *types.Var) {
 		if pv == nil || pv.Name() == "" || pv.Name() == "_" {
@@ -127,7 +128,15 @@ func VerifyFunc(p *Prog, fi *FuncInfo, modeOverride string) *VC {
 	vc.applyHints(fr, st, "entry")
 	body := st.clone()
 	end := vc.execBlock(fr, body, fi.Decl.Body.List)
-	if end != nil {
+	ends := []*State{end}
+	if vc.splitJoins && len(vc.blockOuts) > 1 {
+		// `nomerge`: each path that falls off the end of the body is its own return
+		ends = vc.blockOuts
+	}
+	for _, end := range ends {
+		if end == nil {
+			continue
+		}
 		var vals []Val
 		for _, rv := range fr.results {
 			vals = append(vals, vc.readVar(fr, end, rv, fi.Decl.Body.Rbrace))
@@ -169,6 +178,13 @@ func VerifyFunc(p *Prog, fi *FuncInfo, modeOverride string) *VC {
 				}
 			}
 		}
+		// a hint whose label is never reached proves and assumes nothing: report it instead of
+		// silently dropping it (misspelt label, or a statement with no successor state)
+		for label := range ct.At {
+			if !vc.hintsSeen[label] && !strings.HasPrefix(label, "alloc-guard") {
+				vc.errorf(fi.Decl.Pos(), "hint label %q is never reached", label)
+			}
+		}
 	}
 	return vc
 }
@@ -176,6 +192,12 @@ func VerifyFunc(p *Prog, fi *FuncInfo, modeOverride string) *VC {
 func (vc *VC) applyHintsEnv(fr *frame, st, old *State, label string, names map[string]binding) {
 	if fr.contract == nil {
 		return
+	}
+	if fr.contract == vc.Contract && len(fr.contract.At[label]) > 0 {
+		if vc.hintsSeen == nil {
+			vc.hintsSeen = map[string]bool{}
+		}
+		vc.hintsSeen[label] = true
 	}
 	for _, h := range fr.contract.At[label] {
 		env := &specEnv{vc: vc, st: st, old: old, names: names, pkg: fr.ctx.pkg, allocB: vc.alloc0}
@@ -191,6 +213,17 @@ func (vc *VC) applyHintsEnv(fr *frame, st, old *State, label string, names map[s
 				continue
 			}
 			vc.instLemma(env, st, lm, call.Args, "lemma-pre")
+		case "apply":
+			call, ok := h.Cl.Expr.(SCall)
+			if !ok {
+				continue
+			}
+			lm, ok := vc.P.Specs.Lemmas[call.Fun]
+			if !ok {
+				vc.errorf(token.NoPos, "apply: unknown lemma %s", call.Fun)
+				continue
+			}
+			vc.instLemma(env, st, lm, call.Args, "apply")
 		case "assert":
 			g := env.evalBool(h.Cl.Expr)
 			vc.oblige(st, "assert", label, token.NoPos, g, h.Cl.Text)
